@@ -205,7 +205,8 @@ def parseReq0 : List String → Option ReqV
     let m ← parseWorldMap wm
     let args ← (splitList args).mapM parseArg
     let (names, dg) := files0 content
-    let roots ← lookupRoots m names
+    -- (a refused list: no starting point is looked at)
+    let roots ← (if files0Ok content then lookupRoots m names else some [])
     pure ⟨f, roots, Arg.tok (.prim .opt) :: args, dg⟩
   | _ => none
 
@@ -220,7 +221,9 @@ def handleV (verb : String) (args : List String) : Option String :=
     pure (showResV r.extraDiag (run r.follow r.roots r.args))
   | "find0" => do
     let r ← parseReq0 args
-    pure (showResV r.extraDiag (run r.follow r.roots r.args))
+    let refused := (match args with | [_, content, _, _] => (bytesOfHex content).any (!files0Ok ·) | _ => false)
+    if refused then pure "st=1 diags=1 out=-"
+    else pure (showResV r.extraDiag (run r.follow r.roots r.args))
   | _ => none
 
 def parseObs : List String → Option (Nat × Nat × Bytes)
@@ -585,7 +588,12 @@ def predC18 (req obs : List String) : Option Bool :=
     let args ← (splitList args).mapM parseArg
     let roots ← lookupRoots m (specNames content)
     match parseObs obs with
-    | some (st, _, out) => pure (FuModel.Find.RunRef.predFind f roots (Arg.tok (.prim .opt) :: args) st out)
+    | some (st, _, out) =>
+      -- "equivalent to giving the names as starting points": a name that is not valid UTF-8 is refused
+      -- among the operands (status non-zero, nothing done), so the same refusal is accepted here -
+      -- beside walking every name; leaving the name out silently is neither
+      pure (FuModel.Find.RunRef.predFind f roots (Arg.tok (.prim .opt) :: args) st out ||
+            ((specNames content).any (fun n => !FuModel.Utf8.validUtf8 n) && st != 0 && out.isEmpty))
     | none => pure false
   | _ => none
 
